@@ -170,6 +170,9 @@ class Prop(object):
                 for prim in ('ed25519a', 'ecdsa_p256a'):
                     shapes.append(dict(nuid=3, nsub=2, secret=True, uat=True, nself=1, third='true', revoke_uid=False, extras=('direct',), same_time=False, trust=False,
                                        prim=prim, uat_kind=uk, bigimage=big, uid2=len(shapes) % 4))
+        # key-level signatures (direct-key signature, subkey bindings, subkey revocation) whose own lifetime has run out: the twin carries what the key carries
+        for prim in ('ed25519a', 'ecdsa_p256a'):
+            shapes.append(dict(nuid=2, nsub=2, secret=True, uat=False, nself=1, third=None, revoke_uid=False, extras=('direct', 'subrev'), same_time=False, trust=False, prim=prim, lapsed=True))
         for si, shape in enumerate(shapes):
             if case.get('only') is not None and case['only'] != si:
                 continue
